@@ -622,14 +622,19 @@ fn chain_cmd(inp: &Input, out: &mut dyn Write) {
                 }
                 let maxtd = *tds.last().unwrap();
                 for _ in 0..(nrand + 2) {
-                    let start_num = if rng.chance(1, 8) { tipn as u64 + rng.range(1, 2) } else { rng.below(tipn as u64 + 1) };
-                    let on_chain = rng.chance(2, 3);
+                    // half of the requests are directed at the sampling branch: a start well below `last`, few last-n
+                    // blocks, difficulties inside the range, the boundary in its upper part
+                    let directed = rng.chance(1, 2) && tipn >= 3;
+                    let start_num = if directed { rng.below(tipn as u64 / 2 + 1) } else if rng.chance(1, 8) { tipn as u64 + rng.range(1, 2) } else { rng.below(tipn as u64 + 1) };
+                    let on_chain = if directed { rng.chance(4, 5) } else { rng.chance(2, 3) };
                     let start: i64 = if on_chain && (start_num as usize) <= tipn { main[start_num as usize] as i64 }
                         else if !side.is_empty() && rng.chance(1, 2) { side[rng.below(side.len() as u64) as usize] } else { -1 };
-                    let nlast = rng.below(4);
-                    let boundary = rng.range(1, maxtd + 2);
-                    let mut ds: Vec<u64> = (0..rng.below(4)).map(|_| rng.range(1, maxtd + 1)).collect();
-                    if rng.chance(5, 6) {
+                    let nlast = if directed { rng.below(3) } else { rng.below(4) };
+                    let lo = if directed && start_num > 0 { tds[start_num as usize - 1] + 1 } else { 1 };
+                    let boundary = if directed { rng.range((lo + maxtd) / 2 + 1, maxtd + 1) } else { rng.range(1, maxtd + 2) };
+                    let mut ds: Vec<u64> = if directed { (0..rng.range(1, 3)).map(|_| rng.range(lo, boundary.max(lo + 1) - 1)).collect() }
+                        else { (0..rng.below(4)).map(|_| rng.range(1, maxtd + 1)).collect() };
+                    if directed || rng.chance(5, 6) {
                         ds.sort();
                         ds.dedup();
                     }
